@@ -174,7 +174,12 @@ def run(ctx):
     from props import globcommon
     HID_TREES = [trees.DESIGNED[0], trees.DESIGNED[2],
                  [('real', 'd', None), ('real/x.txt', 'f', None), ('real/.l', 'l', '.'), ('.hl', 'l', 'real'), ('real/sub', 'd', None),
-                  ('real/sub/.hidden.txt', 'f', None), ('real/sub/.hd', 'd', None), ('real/sub/.hd/y.txt', 'f', None), ('.top.txt', 'f', None)]]
+                  ('real/sub/.hidden.txt', 'f', None), ('real/sub/.hd', 'd', None), ('real/sub/.hd/y.txt', 'f', None), ('.top.txt', 'f', None)],
+                 # several hidden (and excluded) directories next to each other in one listing, whatever order the OS returns
+                 [('top.txt', 'f', None), ('.cache', 'd', None), ('.cache/c.txt', 'f', None), ('.git', 'd', None), ('.git/g.txt', 'f', None),
+                  ('.git/objects', 'd', None), ('.git/objects/o.txt', 'f', None), ('.a', 'd', None), ('.a/a.txt', 'f', None), ('.b', 'd', None),
+                  ('.b/b.txt', 'f', None), ('sub', 'd', None), ('sub/.x', 'd', None), ('sub/.x/x.txt', 'f', None), ('sub/.y', 'd', None), ('sub/.y/y.txt', 'f', None),
+                  ('sub/s.txt', 'f', None), ('zz1', 'd', None), ('zz1/z.txt', 'f', None), ('zz2', 'd', None), ('zz2/z.txt', 'f', None)]]
     nodot_pats = [('**', 0), ('**/*', 0), ('*', 0), ('*/*', 0), ('**/*.txt', 0), ('*.txt', Gm.MATCHBASE), ('**/', 0), ('*/**/', 0), ('[!a]*', 0),
                   ('**/[!a]*', 0), ('?*', 0), ('**/?*.txt', 0), ('***/*.txt', Gm.GLOBSTARLONG), ('***', Gm.GLOBSTARLONG), ('x.txt', Gm.MATCHBASE),
                   ('**/sub/*', 0), ('*/sub/**', 0), ('@(real|*)/**', Gm.EXTGLOB), ('**/*(?)', Gm.EXTGLOB)]
